@@ -12,6 +12,11 @@ two) through a fakesnow cursor, and compares, against the reference semantics in
   C12.rowcount         cursor.rowcount == sum of the counts
   C12.atomic           if MERGE raises, the target equals its pre-state; a MERGE inside BEGIN..ROLLBACK leaves nothing,
                        inside BEGIN..COMMIT everything; no transaction is left open by the statement
+                       -- whatever the session did BEFORE the MERGE (histories: how its last transaction ended: COMMIT /
+                       ROLLBACK statements, conn.commit() / conn.rollback(), COMMIT on another cursor, an earlier MERGE
+                       inside the transaction, a COMMIT the engine rejected; MERGE on the cursor that issued BEGIN or on
+                       a new one): a failing MERGE leaves the target as it was for the session AND for a second
+                       connection, a succeeding one is visible to the second connection at once
   C12.helper           afterwards the session owns no helper object: no temporary table or view (ground truth: the
                        harness creates none), `merge_candidates` resolves to nothing, SHOW TABLES / SHOW OBJECTS /
                        information_schema.tables do not list it
@@ -23,8 +28,10 @@ two source rows; clause lists are the valid Snowflake ones (an unconditional cla
 MATCHED clauses see only the source).
 
 Not demanded: order of the status columns; `cursor.description` after MERGE (C06); the class/code of the exception
-of a failing MERGE (C07); behaviour of nondeterministic merges, of clause lists Snowflake rejects, of a failing MERGE
-inside an explicit transaction; row order of the target.
+of a failing MERGE (C07); behaviour of nondeterministic merges, of clause lists Snowflake rejects; what is left of a
+user transaction that the engine aborted because a MERGE inside it hit a constraint (a MERGE that fails inside an open
+transaction WITHOUT aborting it must still be all-or-nothing for the session: class inside_open_transaction:*); row
+order of the target.
 
 Violation classes name the input shape (spelling / clause forms / data shape decided by the REFERENCE), never
 fakesnow internals: `shape_cause` (spellings and expression forms the statement is refused for), `bare_or_leak`
@@ -114,6 +121,8 @@ INSERTS = {
     "expr_k": (("k", "v"), (("add", ("s", "k"), ("lit", 10)), ("s", "v"))),
     "expr_v": (("k", "v"), (("s", "k"), ("concat", ("s", "v"), ("lit", "x")))),
     "w_ok": (("k", "v", "w"), (("s", "k"), ("s", "v"), ("lit", "nw"))),  # scenario 'notnull' only
+    # two columns, one value: the statement is rejected as a whole whatever the data (history / atomic cases only)
+    "bad_arity": (("k", "v"), (("s", "k"),)),
 }
 # forms given to the 1st / 2nd / 3rd UPDATE resp. INSERT clause of a generated list (so that clauses are told apart)
 SET_BY_POS = ("src", "lit", "null")
@@ -352,6 +361,29 @@ NOTNULL_LISTS = [
     (("U", "src", "w_lit"), ("D", "tgt"), ("I", None, "w_ok")),  # never fails
     (("U", None, "src"), ("I", "src", "w_ok"), ("I", None, "cols")),
 ]
+# MERGEs on table t that cannot be carried out in a LATER clause although the clauses before it can (no constraint
+# involved, so the engine does not abort an open transaction)
+STATIC_FAIL_LISTS = [
+    (("U", None, "src"), ("I", None, "bad_arity")),
+    (("D", "src"), ("U", None, "lit"), ("I", None, "bad_arity")),
+]
+# What the session did BEFORE the MERGE: how its last transaction ended must not matter. The MERGE then runs outside a
+# transaction (autocommit) -- except for 'open_tx' -- on the cursor that issued the BEGIN ('same') or on a new one.
+HISTORIES = (
+    "fresh",  # nothing
+    "stmt_commit",  # BEGIN; work; COMMIT   as statements on one cursor
+    "stmt_rollback",  # BEGIN; work; ROLLBACK as statements
+    "conn_commit",  # BEGIN as statement; work; conn.commit()
+    "conn_rollback",  # BEGIN as statement; work; conn.rollback()
+    "other_cursor_commit",  # BEGIN on one cursor, COMMIT as statement on another cursor of the connection
+    "merge_in_tx_conn_commit",  # BEGIN; a successful MERGE; conn.commit()
+    "rejected_commit",  # BEGIN; insert a PRIMARY KEY value another session commits first; COMMIT raises
+    "rejected_conn_commit",  # the same, the losing commit is conn.commit()
+    "open_tx",  # BEGIN; work -- the MERGE runs INSIDE the open transaction, which is rolled back afterwards
+)
+HIST_CURSORS = ("same", "new")
+HIST_WORK = "insert into b values (77, 'history')"
+
 QUICK_CONTENTS = [
     ((0, 1, 2), (0, 1, 2)),  # keys 1,2,NULL vs 1,2,3
     ((0, 0, 1), (0, 1, 3)),  # duplicate target key 1; NULL source key
@@ -401,7 +433,7 @@ def enumerate_cases(tier):
                 cases.append(("plain", tk, sk, ((spec, sp),)))
     # C: SET / INSERT forms x contents (x spellings on two contents)
     set_ids = [s for s in SETS if not s.startswith("w_")]
-    ins_ids = [s for s in INSERTS if not s.startswith("w_")]
+    ins_ids = [s for s in INSERTS if not s.startswith("w_") and s != "bad_arity"]
     ccont = QUICK_CONTENTS[:6] if quick else [(t, s) for t in ALL_TARGETS for s in FORM_SOURCES]
     for tk, sk in ccont:
         for sid in set_ids:
@@ -460,6 +492,22 @@ def enumerate_cases(tier):
         for tk, sk in SPELL_CONTENTS[:2]:
             for spec in BARE_OR_LISTS:
                 cases.append(("plain", tk, sk, ((spec, sp),)))
+    # D': statically invalid later clause (autocommit): all or nothing
+    for tk, sk in QUICK_CONTENTS[:4] if quick else contents:
+        for spec in STATIC_FAIL_LISTS:
+            cases.append(("plain", tk, sk, ((spec, "plain"),)))
+    # I: session history before the MERGE x cursor x {MERGE failing in a later clause, succeeding MERGE}
+    if quick:
+        hl = [("t3", NOTNULL_LISTS[0]), ("t", STATIC_FAIL_LISTS[0]), ("t", TEMPLATES["U_I"])]
+        hc = SPELL_CONTENTS[:2]
+    else:
+        hl = [("t3", x) for x in NOTNULL_LISTS] + [("t", x) for x in STATIC_FAIL_LISTS] + [("t", TEMPLATES[x]) for x in TEMPLATES]
+        hc = SPELL_CONTENTS
+    for h in HISTORIES:
+        for c in HIST_CURSORS:
+            for tn, spec in hl:
+                for tk, sk in hc:
+                    cases.append((f"hist:{h}:{c}:{tn}", tk, sk, ((spec, "plain"),)))
     # de-duplicate, keep first occurrence (deterministic order)
     seen, out = set(), []
     for c in cases:
@@ -488,6 +536,7 @@ def _env():
         cur.execute("create table t3 (k int, v varchar, w varchar not null)")
         cur.execute("create table s (k int, v varchar, f int)")
         cur.execute("create table b (k int, v varchar)")
+        cur.execute("create table pk (id int primary key)")
         cur.execute("create schema s2")
         cur.execute("create database db2")
         cur.execute("create schema db2.s1")
@@ -553,9 +602,17 @@ def _reset(conn, raw, sess, tname, trows, srows, user_mc, tloc=HOME, sloc=HOME):
     raw.execute("drop table if exists db1.s1.MERGE_CANDIDATES")
     for side in ("_fs_tables_ext", "_fs_columns_ext"):
         raw.execute(f"delete from db1.information_schema.{side} where ext_table_name = 'MERGE_CANDIDATES'")
+    try:
+        raw.execute("ROLLBACK")
+    except Exception:  # noqa: BLE001
+        pass
     for loc in LOCS:
         for tn in ("t", "t3", "s"):
             raw.execute(f"delete from {loc}.{tn}")
+    raw.execute("delete from db1.s1.pk")
+    if raw.execute("select count(*) from db1.s1.b").fetchall() != [(len(BYST),)]:  # a history case committed work
+        raw.execute("delete from db1.s1.b")
+        raw.execute("insert into db1.s1.b values " + _vals(BYST))
     if trows:
         raw.execute(f"insert into {tloc}.{tname} values " + _vals(trows))
     if srows:
@@ -823,6 +880,151 @@ def judge(scenario, tname, spec, spelling, srows, o):
     return viol, memb, ref
 
 
+# ---- session history before the MERGE ---------------------------------------------------------------------------------------
+def _quiet(f):
+    try:
+        f()
+        return "ok"
+    except Exception as e:  # noqa: BLE001
+        return type(e).__name__
+
+
+def run_history(history, conn2, cur, raw, tname):
+    """carry out the history on a fresh connection; -> what happened (part of the observation)"""
+    log = []
+    if history == "fresh":
+        return log
+    cur.execute("BEGIN")
+    if history in ("rejected_commit", "rejected_conn_commit"):
+        cur.execute("insert into pk values (1)")
+        raw.execute("BEGIN")
+        raw.execute("insert into db1.s1.pk values (1)")
+        raw.execute("COMMIT")  # the other session wins
+        # the loser's commit is rejected by the engine (whether and how it raises is not this property's subject)
+        log.append(_quiet((lambda: cur.execute("COMMIT")) if history == "rejected_commit" else conn2.commit))
+        return log
+    if history == "merge_in_tx_conn_commit":
+        cur.execute(render(TEMPLATES["U"], "plain", tname))
+    else:
+        cur.execute(HIST_WORK)
+    if history == "stmt_commit":
+        cur.execute("COMMIT")
+    elif history == "stmt_rollback":
+        cur.execute("ROLLBACK")
+    elif history in ("conn_commit", "merge_in_tx_conn_commit"):
+        conn2.commit()
+    elif history == "conn_rollback":
+        conn2.rollback()
+    elif history == "other_cursor_commit":
+        conn2.cursor().execute("COMMIT")
+    return log  # open_tx: left open
+
+
+def hist_case(item, acc: core.Acc):
+    """('hist:<history>:<cursor>:<table>', tk, sk, ((spec, spelling),)): history, then ONE MERGE, on a connection of its
+    own (so that nothing a history leaves in the session can leak into another case)."""
+    from snowflake.connector.cursor import DictCursor
+
+    scenario, tk, sk, steps = item
+    _h, history, which, tname = scenario.split(":")
+    (spec, spelling), = steps
+    conn, raw, sess0 = _env()
+    trows, srows = target_rows(tk, three=tname == "t3"), source_rows(sk)
+    _reset(conn, raw, sess0, tname, trows, srows, False)
+    conn2 = _W["fs"].connect(database="db1", schema="s1")
+    try:
+        sess = observe.engine_conn(conn2)
+        cur = conn2.cursor(DictCursor)
+        hlog = run_history(history, conn2, cur, raw, tname)
+        mcur = cur if which == "same" else conn2.cursor(DictCursor)
+        sql = render(spec, spelling, tname)
+        # pre-state: what the session sees now (inside open_tx that includes its pending work)
+        pre_t = _norm(sess.execute(f"select * from db1.s1.{tname}").fetchall())
+        pre_committed = _norm(raw.execute(f"select * from db1.s1.{tname}").fetchall())
+        pre_others = _others(raw, HOME, tname, HOME)
+        try:
+            mcur.execute(sql)
+            status = mcur.fetchall()
+            got = ("ok", status, mcur.rowcount)
+        except Exception as e:  # noqa: BLE001
+            got = ("err", f"{type(e).__module__}.{type(e).__name__}", str(e).split("\n")[0][:100])
+        o = {"got": got, "pre_t": pre_t, "history": hlog}
+        # the session's own view, through fakesnow, on the cursor that ran the MERGE
+        view = _fs(mcur, f"select * from {tname}")
+        o["session_view"] = _norm([tuple(r.values()) for r in view[1]]) if view[0] == "ok" else view
+        o["resolves"] = _fs(mcur, "select * from merge_candidates")
+        o["temp_in_tx"] = _temp_objects(sess) if history == "open_tx" and view[0] == "ok" else []
+        if history == "open_tx":
+            o["tx_end"] = _quiet(conn2.rollback)
+        try:
+            sess.execute("ROLLBACK")
+            o["tx_left_open"] = True
+        except Exception:  # noqa: BLE001
+            o["tx_left_open"] = False
+        # what a second connection sees, at once
+        o["post_t"] = _norm(raw.execute(f"select * from db1.s1.{tname}").fetchall())
+        post_others = _others(raw, HOME, tname, HOME)
+        o["others_same"] = {k: v == pre_others[k] for k, v in post_others.items()}
+        o["elsewhere_changed"] = []
+        o["new_temp"] = _temp_objects(sess)
+        o["show_tables"] = o["show_objects"] = o["info_tables"] = False
+    finally:
+        _quiet(conn2.close)
+    acc.count("evaluations")
+    acc.count("merges_executed")
+    acc.count("history_cases")
+
+    tag = "" if history == "fresh" else f",history={history},cursor={which}"
+    viol, memb = [], []
+    if history != "open_tx":
+        v0, m0, ref = judge("follow", tname, spec, spelling, srows, o)
+        exp_view = _norm(ref["rows"]) if got[0] == "ok" else pre_t
+        for clause, cls, detail in v0:
+            hist_dependent = clause in ("C12.atomic", "C12.helper", "C12.helper_user_table")
+            viol.append((clause, cls + (tag if hist_dependent else ""), detail))
+        memb = [m for m in m0 if not (tag and m[0] in ("C12.atomic", "C12.helper", "C12.helper_user_table"))]
+        # the session itself sees what the second connection sees (nothing pending, nothing hidden)
+        if o["session_view"] != o["post_t"]:
+            viol.append(("C12.atomic", f"session_and_second_connection_disagree{tag}", {"session": o["session_view"], "second connection": o["post_t"], "expected": exp_view}))
+    else:
+        # inside the user's open transaction (rolled back afterwards). Demanded: the statement as seen by the session is
+        # all-or-nothing; after the user's ROLLBACK nothing of it (nor of the history) is left for anyone.
+        tcols = T3COLS if tname == "t3" else TCOLS
+        ast = clauses_ast(spec)
+        ref = M.merge([tuple(r) for r in pre_t], srows, tcols, SCOLS, ON, ast, not_null=("w",) if tname == "t3" else ())
+        exp_rows = _norm(ref["rows"])
+        fail_clause = M.first_failing_clause([tuple(r) for r in pre_t], srows, tcols, SCOLS, ON, ast, ("w",) if tname == "t3" else ()) if ref["error"] else None
+        earlier = fail_clause is not None and any(n > 0 for n in ref["per_clause"][:fail_clause])
+        if (got[0] == "err") != ref["error"]:
+            viol.append(("C12.no_exception", f"unexplained:inside_open_transaction,{got[0]}", {"got": got}))
+        elif isinstance(o["session_view"], list):  # (after a constraint error the engine has aborted the transaction)
+            pending = got[0] == "err" and ref.get("static_error") is not None
+            if pending and earlier:
+                memb.append(("C12.atomic", "inside_open_transaction:effects_of_earlier_clauses_stay_pending", o["session_view"] != pre_t))
+            if pending:
+                memb.append(("C12.helper", "inside_open_transaction:helper_left_after_failed_merge", bool(o["temp_in_tx"])))
+            rejoin = None if ref.get("static_error") is not None else _rejoin_label([tuple(r) for r in pre_t], srows, tcols, ast, o["session_view"])
+            if o["session_view"] != exp_rows and rejoin is None:
+                cls = "inside_open_transaction:effects_of_earlier_clauses_stay_pending" if pending and earlier else "unexplained:inside_open_transaction"
+                viol.append(("C12.atomic", cls, {"session sees": o["session_view"], "expected": exp_rows, "got": got}))
+            if o["temp_in_tx"] or o["resolves"][0] == "ok":
+                cls = "inside_open_transaction:helper_left_after_failed_merge" if pending else f"unexplained:inside_open_transaction,after={got[0]}"
+                viol.append(("C12.helper", cls, {"temporary objects": o["temp_in_tx"], "resolves": o["resolves"][0]}))
+        if o["post_t"] != pre_committed or not all(o["others_same"].values()) or o["new_temp"] or o["tx_left_open"]:
+            viol.append(("C12.atomic", "inside_open_transaction:something_left_after_user_rollback", {"second connection": o["post_t"], "before": pre_committed, "others_same": o["others_same"], "temp": o["new_temp"], "tx_left_open": o["tx_left_open"]}))
+    acc.obs((item, sorted((k, repr(v)) for k, v in o.items())))
+    acc.outcome(("hist", history, which, got[0], got[1] if got[0] == "err" else repr(got[1]), len(o["post_t"])))
+    if sum(ref["counts"].values()) > 0 or ref["error"]:
+        acc.nontrivial((scenario, tuple(map(tuple, pre_t)), sk, spec, spelling))
+    acc.sample({"scenario": scenario, "sql": sql, "target": trows, "source": srows, "observed": got, "session_view": o["session_view"], "second_connection": o["post_t"]}, cap=4)
+    for clause, cls, failed in memb:
+        acc.member(clause, cls, failed)
+    rp = {"case": item, "step": 0, "sql": sql}
+    for clause, cls, detail in viol:
+        acc.violation(clause, cls, dict(detail, sql=sql, scenario=scenario, target_before=pre_t, source=srows, history=hlog), rp)
+    return [(got[0], len(viol))]
+
+
 def _rejoin_label(pre, eff_src, tcols, ast, observed):
     alt = M.merge_clausewise_rejoin(pre, eff_src, tcols, SCOLS, ON, ast)
     return "rejoin" if alt is not None and _norm(alt) == observed else None
@@ -830,6 +1032,8 @@ def _rejoin_label(pre, eff_src, tcols, ast, observed):
 
 def case(item, acc: core.Acc, tier):
     scenario, tk, sk, steps = item
+    if scenario.startswith("hist:"):
+        return hist_case(item, acc)
     tname = "t3" if scenario == "notnull" else "t"
     conn, raw, sess = _env()
     trows, srows = target_rows(tk, three=tname == "t3"), source_rows(sk)
@@ -875,7 +1079,10 @@ def run(ctx: core.Ctx):
         "db2.s2) than the current db1.s1, schema- or fully qualified, with same-named decoy tables in db1.s1. "
         "E: follow-up observations of the session (helper table; user table of the same name) x spellings. F: MERGE "
         "inside BEGIN..ROLLBACK/COMMIT. G: two merges in one session. H: conditions `a OR b` without parentheses x all "
-        "contents. quick = 16 contents, rotating conditions, 22 spellings, reduced B-H. non-trivial = distinct "
+        "contents. I: session history before the MERGE (10 histories) x cursor (the one that issued BEGIN / a new one) x "
+        "{MERGE failing in a later clause by NOT NULL, by a column/value count mismatch; succeeding MERGE} on a "
+        "connection of its own (thorough: x NOT NULL lists, static-fail lists and templates x 4 contents). "
+        "quick = 16 contents, rotating conditions, 22 spellings, reduced B-H. non-trivial = distinct "
         "(scenario, pre-state, source, clauses, spelling) for which the reference affects >= 1 row or demands an error"
     )
     ctx.assumptions = [
@@ -905,9 +1112,10 @@ def replay(payload):
     acc = core.Acc()
     res = case(item, acc, "quick")
     scenario, tk, sk, steps = item
-    print("scenario:", scenario, "\ntarget:", target_rows(tk, scenario == "notnull"), "\nsource:", source_rows(sk))
+    three = scenario == "notnull" or scenario.endswith(":t3")
+    print("scenario:", scenario, "\ntarget:", target_rows(tk, three), "\nsource:", source_rows(sk))
     for spec, sp in steps:
-        print("sql:", render(spec, sp, "t3" if scenario == "notnull" else "t"))
+        print("sql:", render(spec, sp, "t3" if three else "t"))
     print("steps (outcome, violations):", res)
     for k, v in sorted(acc.viol.items()):
         print(k, v["detail"])
